@@ -1,0 +1,16 @@
+//go:build verif
+
+// Contracts for package tptaddr, checked by /verif (bfvc). Comment-only.
+package tptaddr
+
+//@ ifacegetters LookupTptAddr DialTptAddr
+
+//@ func (*lookupTptAddr).IsEquivalent
+//@   ensures ret ==> samegetters(d, other, LookupTptAddr)
+
+// Dialer options are compared by address: back-off parameters are tuning, not identity.
+//@ func (*dialTptAddr).IsEquivalent
+//@   ensures ret ==> implements(other, DialTptAddr)
+//@   ensures ret ==> d.DialTptAddrSourcePeerId() == as(other, DialTptAddr).DialTptAddrSourcePeerId()
+//@   ensures ret ==> d.DialTptAddrTargetPeerId() == as(other, DialTptAddr).DialTptAddrTargetPeerId()
+//@   ensures ret ==> d.DialTptAddrDialerOpts().GetAddress() == as(other, DialTptAddr).DialTptAddrDialerOpts().GetAddress()
